@@ -225,7 +225,10 @@ def grow_v(ctx, lib):
         return n
 
     with cf.ThreadPoolExecutor(len(GROW_V)) as ex:
-        ctx.traces += sum(ex.map(validate, zip(GROW_V, recorded)))    # scenarios (calls, connections, trees, transfers) accepted
+        accepted = sum(ex.map(validate, zip(GROW_V, recorded)))       # scenarios (calls, connections, trees, transfers) accepted
+    # (not `ctx.traces += sum(...)`: that reads the counter before the validation runs and overwrites what the other lanes -
+    # R/HttpSite above all - added to it meanwhile; the evidence then reported a fifth of the executions that were checked)
+    ctx.count(traces=accepted)
     ctx.assumptions += ["the scenarios of the recorded runs (sites, connection histories, tree operations, transfers) are random (seeded)"]
 
 
